@@ -157,7 +157,7 @@ def gen_queries(rng, arr, spf, fo, nf, df, thorough):
     core_f1 = (first + df["pre"] + df["ncore"]) // spf - 1    # last frame fully inside the core
     cand = [(core_f0, core_f1), (core_f0, 0), (0, core_f1), (core_f0, nf), (core_f0, nf + 1), (0, nf + 3),
             (core_f0 + 1, core_f1 - 1), (0, nf + 40), (core_f0, core_f0), (core_f0, core_f0 + 1), (fo, fo),
-            (nf, nf + 2), (nf + 1, nf + 5), (core_f1, nf + 1), (max(1, fo), lastframe), (1, 0)]
+            (nf, nf + 2), (nf + 1, nf + 5), (core_f1, nf + 1), (max(1, fo), lastframe), (1, 0), (1, core_f1), (max(1, fo - 1), 0), (1, fo + 1)]
     for fs, fe in cand:
         if fs >= 0 and fe >= 0 and (fs, fe) not in lims:
             lims.append((fs, fe))
@@ -385,14 +385,25 @@ def main():
             spf, fo, nf, base, n = int(p[1]), int(p[2]), int(p[3]), int(p[4]), int(p[5])
             p = p[1:]
             arr = [bits_f64(int(h, 16)) for h in p[5:5 + n]]
+            # leading NaNs = the padding below the frame offset of a floating-point field: not representable in Q, the
+            # array given to the model starts after them (integer fields are padded with 0.0, which IS part of the array)
+            lead = 0
+            while lead < len(arr) and arr[lead] != arr[lead]:
+                lead += 1
+            arr = arr[lead:]
+            base += lead
             if any(x != x or abs(x) == float("inf") for x in arr):
-                continue    # NaN padding (PHASE reaching below the frame offset of a float field): not representable in Q
-            exact_f = (not df["general"]) and all(pow2(abs(arr[j + 1] - arr[j])) for j in range(len(arr) - 1))
+                continue
+            # power-of-two steps make the library's double arithmetic exact; judged on the samples a query can touch
+            okstep = [pow2(abs(arr[j + 1] - arr[j])) for j in range(len(arr) - 1)]
+            bad_pos = [j + base for j, o in enumerate(okstep) if not o]
             arr = [None] * base + arr
-            model_in.append("A %d %d %d %d %d %s" % (spf, fo, nf, base, n, " ".join(p[5:5 + n])))
+            model_in.append("A %d %d %d %d %d %s" % (spf, fo, nf, base, len(arr) - base, " ".join(p[5 + lead:5 + n])))
             for (val, fs, fe) in gen_queries(rng, arr, spf, fo, nf, df, chk.thorough):
                 Q.append((dfi, fld, arr, spf, fo, nf, val, fs, fe))
-                EX.append(exact_f)
+                qs = fo * spf if fs == 0 else fs * spf
+                qe = (nf + 1) * spf - 1 if fe == 0 else (fe + 1) * spf - 1
+                EX.append((not df["general"]) and not any(qs <= j < qe for j in bad_pos))
                 model_in.append("Q %x %d %d" % (f64bits(val), fs, fe))
     rc2, out2 = vlib.sh([drv], inp=("\n".join(model_in) + "\n").encode(), timeout=3000)
     M = out2.strip().split("\n")
